@@ -2,6 +2,7 @@
    Gallina translations of the decision functions (DESIGN.md appendix B).
    A site outside the fragment falls back on the reference definition and is flagged [translated_* = false]. *)
 Require Import Verif.Model.Base Verif.Model.Decision Verif.Model.GoSem Verif.Model.LayoutRef.
+Require Verif.Gen.Escapes Verif.Gen.Colors.
 
 (* PrintCtx.Begin  (returns s.buf; None = panic) *)
 Definition pc_begin (s_jsonMode : bool) (s_buf : bytes) : option bytes :=
@@ -105,6 +106,32 @@ Definition pc_append_comma (s_jsonMode : bool) (s_buf : bytes) : option bytes :=
   else let s_buf := s_buf ++ [zb 32] in
   Some (s_buf).
 Definition translated_pc_append_comma := true.
+
+(* Entry.printTimestamp  (returns pc.buf; None = panic) *)
+   (* argument not kept by the model (declared): pc.now *)
+   (* argument not kept by the model (declared): pc *)
+Definition print_timestamp (f_ts : bytes -> bytes) (g_hex : bytes) (m_safeSet : list (Z * bool)) (pc : unit) (pc_noColor pc_jsonMode : bool) (pc_buf : bytes) : option bytes :=
+  if pc_noColor
+  then match Escapes.string_key g_hex m_safeSet pc_jsonMode pc_buf [x74;x69;x6d;x65] with
+    | None => None
+    | Some pc_buf => match pc_append_colon pc_jsonMode pc_buf with
+      | None => None
+      | Some pc_buf => let pc_buf := f_ts pc_buf in
+        match pc_append_comma pc_jsonMode pc_buf with
+        | None => None
+        | Some pc_buf => Some (pc_buf)
+        end
+      end
+    end
+  else match Colors.echo_color pc_buf 32 with
+    | None => None
+    | Some pc_buf => let pc_buf := f_ts pc_buf in
+      match pc_append_byte pc_buf 32 with
+      | None => None
+      | Some pc_buf => Some (pc_buf)
+      end
+    end.
+Definition translated_print_timestamp := true.
 
 (* Entry.printImpl  (the statements after the blank-line rule; returns (deliveries, context); None = panic) *)
    (* argument not kept by the model (declared): pc.kvps *)
